@@ -17,7 +17,7 @@
     so `\\\s*$` matches iff the text minus trailing whitespace ends in a backslash, and the (only)
     match starts at that LAST backslash.
 -/
-namespace Rzil.PP
+namespace Rzil.PPM
 
 abbrev Line := List Char
 abbrev Name := List Char
@@ -282,4 +282,4 @@ def joinContinuationsS (lines : List String) : Option (List String) :=
 
 def replaceDoWhile0S (code : String) : String := String.ofList (replaceDoWhile0 code.toList)
 
-end Rzil.PP
+end Rzil.PPM
